@@ -45,8 +45,13 @@ namespace igris
         flat_map &operator=(const flat_map &) = default;
         flat_map &operator=(flat_map &&) = default;
 
-        flat_map(const std::initializer_list<value_type> &init) : storage(init)
+        flat_map(const std::initializer_list<value_type> &init)
         {
+            // like std::map: of several elements with the same key only the
+            // first is kept
+            storage.reserve(init.size());
+            for (const value_type &value : init)
+                insert(value);
         }
 
         bool operator==(const flat_map &other) const
